@@ -164,6 +164,7 @@ class SymArray:
         if method != '__call__': raise Undecided(f'ufunc method {method}')
         if kw.get('out') is not None: raise Undecided('out=')
         n = ufunc.__name__
+        if n == 'reciprocal' and len(inputs) == 1: return binop('true_divide', 1.0 if inputs[0].dtype.kind == 'f' else 1, inputs[0]) if inputs[0].dtype.kind == 'f' else (_ for _ in ()).throw(Undecided('integer reciprocal'))
         if n in ('absolute', 'rint', 'negative'):
             (x,) = inputs
             if ctx().fp:
